@@ -257,6 +257,9 @@ pub struct Scenario {
     pub starve_release: u64,
     /// closures are yield points (and are logged) only every 2^quiet-th call: for the sampled large inputs
     pub quiet: u8,
+    /// number of elements pulled from the concurrent iterator before it is turned into a parallel computation
+    /// (`into_con_iter()`, `next()` x pre, `into_par()`): a partially consumed source
+    pub pre: usize,
 }
 
 // ---------------------------------------------------------------------------------------------
@@ -666,6 +669,9 @@ impl Scenario {
         parts.push(format!("sched={}", self.sched_seed));
         parts.push(format!("release={}", self.starve_release));
         parts.push(format!("quiet={}", self.quiet));
+        if self.pre > 0 {
+            parts.push(format!("pre={}", self.pre));
+        }
         parts.push(format!(
             "faults={}",
             self.faults
@@ -696,6 +702,7 @@ impl Scenario {
             faults: vec![],
             starve_release: 0,
             quiet: 0,
+            pre: 0,
         };
         for part in s.trim().split(';') {
             let (k, v) = part.split_once('=')?;
@@ -738,6 +745,7 @@ impl Scenario {
                 "sched" => scn.sched_seed = v.parse().ok()?,
                 "release" => scn.starve_release = v.parse().ok()?,
                 "quiet" => scn.quiet = v.parse().ok()?,
+                "pre" => scn.pre = v.parse().ok()?,
                 "faults" => {
                     for x in v.split(',').filter(|x| !x.is_empty()) {
                         let (st, tr) = x.split_once(':')?;
